@@ -3,6 +3,7 @@ import Exetera.Lemmas.JoinFlatSwap
 import Exetera.Lemmas.JoinFlatIndex
 import Exetera.Lemmas.JoinFlatDec
 import Exetera.Lemmas.C19Session
+import Exetera.Lemmas.C19Pandas
 /-!
 # C19 — Session-level merge and join helpers agree with relational join semantics
 
@@ -290,6 +291,57 @@ example : innerMaps false false [1, 1, 2, 4, 4, 5] [1, 2, 2, 4, 6] = .ok (encode
 -- the swapped combination on a concrete input (duplicates on the left, right duplicate-free)
 example : innerMaps false true [1, 1, 2, 4, 4, 5] [1, 2, 4, 6] = .ok (encodeInner (innerJoin [1, 1, 2, 4, 4, 5] [1, 2, 4, 6])) := by
   decide
+
+/-! ## `Session.merge_left` / `merge_right` / `merge_inner` (the join itself is `pandas.merge`, a parameter) -/
+
+/-- **merge_left maps the payloads through the rows pandas returned.** Whatever row pairs `pandas.merge(how='left')`
+    returns for the two key columns (any order of keys, duplicates allowed; right rows in range), every payload column of
+    the right table — numeric or indexed string — comes back as `Spec.mapSpec` / `Spec.mapIndexedSpec` through the right
+    column of exactly those rows: row `r` is the payload at the partner row, the empty value (0 / empty string) where the
+    left row has no partner. The same values are returned or written to the writers. -/
+theorem merge_left_maps_pandas_rows (pd : List Int → List Int → List (Nat × Option Nat)) (L R : List Int)
+    (ps : List Payload) (hrows : ∀ p ∈ pd L R, ∀ j, p.2 = some j → j < R.length)
+    (hps : ∀ p ∈ ps, PayloadOK R.length p) :
+    ∃ outs, mergeLeft pd L R ps = .ok outs ∧ MappedPayloads (encR NAN_AS_INT (pd L R)) NAN_AS_INT ps outs :=
+  mergeLeft_rows pd L R ps hrows hps
+
+/-- … so under the recorded assumption that `pandas.merge(how='left')` returns the relational left join, `merge_left`
+    returns the payload values of `Spec.leftJoin` (keys in ANY order, duplicates on either side). -/
+theorem merge_left_relational (pd : List Int → List Int → List (Nat × Option Nat)) (L R : List Int)
+    (ps : List Payload) (hpd : pd L R = leftJoin L R) (hps : ∀ p ∈ ps, PayloadOK R.length p) :
+    ∃ outs, mergeLeft pd L R ps = .ok outs ∧ MappedPayloads (encR NAN_AS_INT (leftJoin L R)) NAN_AS_INT ps outs := by
+  have := mergeLeft_rows pd L R ps (by
+    intro p hp j hj
+    rw [hpd] at hp
+    exact leftJoinFrom_bound R L 0 p hp j hj) hps
+  rwa [hpd] at this
+
+/-- `merge_right` is `merge_left` with the tables swapped (`pandas.merge(left=r_df, right=l_df, how='left')`). -/
+theorem merge_right_relational (pd : List Int → List Int → List (Nat × Option Nat)) (L R : List Int)
+    (ps : List Payload) (hpd : pd R L = leftJoin R L) (hps : ∀ p ∈ ps, PayloadOK L.length p) :
+    ∃ outs, mergeRight pd L R ps = .ok outs ∧ MappedPayloads (encR NAN_AS_INT (leftJoin R L)) NAN_AS_INT ps outs :=
+  merge_left_relational pd R L ps hpd hps
+
+/-- **merge_inner maps both tables' payloads through the pairs pandas returned**; under the recorded assumption that
+    `pandas.merge(how='inner')` returns the matching pairs of `Spec.innerJoin` in some order (pandas does not keep the
+    order of duplicate right rows: a permutation) the two results list, row by row, the payloads of the left and of the
+    right member of each pair (`-1` never occurs in the maps, so no row is a marker). -/
+theorem merge_inner_maps_pandas_rows (pdi : List Int → List Int → List (Nat × Nat)) (L R : List Int)
+    (lps rps : List Payload) (hpd : (pdi L R).Perm (innerJoin L R))
+    (hl : ∀ p ∈ lps, PayloadOK L.length p) (hr : ∀ p ∈ rps, PayloadOK R.length p) :
+    ∃ louts routs, mergeInner pdi L R lps rps = .ok (louts, routs) ∧
+      MappedPayloads ((pdi L R).map (fun p => (p.1 : Int))) (-1) lps louts ∧
+      MappedPayloads ((pdi L R).map (fun p => (p.2 : Int))) (-1) rps routs :=
+  mergeInner_rows pdi L R lps rps (by
+    intro p hp
+    have := innerJoinFrom_bound R L 0 p (hpd.mem_iff.mp hp)
+    omega) hl hr
+
+-- non-vacuity: unsorted keys with duplicates, a numeric and an indexed-string payload ("a", "", "cc")
+example : PayloadOK 3 (.numeric [11, 14, 17]) ∧ PayloadOK 3 (.indexed [0, 1, 1, 3] [97, 99, 99]) := by
+  refine ⟨rfl, ⟨by decide, by decide, by decide⟩, by decide⟩
+example : mergeLeft (fun l r => leftJoin l r) [5, 3, 5, 8] [3, 5, 3] [.numeric [11, 14, 17], .indexed [0, 1, 1, 3] [97, 99, 99]] =
+    .ok [.numeric [14, 11, 17, 14, 0], .indexed [0, 0, 1, 3, 3, 3] [97, 99, 99]] := by decide
 
 /-! ## `Session.get_index` -/
 
